@@ -28,6 +28,16 @@ CONTRACTS = [
              ensures=[("next-number-advances-by-one", "self._next_tx_phase == old(self._next_tx_phase) + 1")],
              effects=[("send", ["int_str(old(self._next_tx_phase))", "plaintext"])],
              note="the k-th send_message() is handed to Send exactly once, labelled with the decimal numeral of k, body unchanged"),
+    Contract("wormhole/_boss.py:Boss._init_other_state", props=[PROP], params={}, self_fields={},
+             ensures=[("numbering-starts-at-zero", "self._next_tx_phase == 0 and self._next_rx_phase == 0"),
+                      ("reorder-buffer-starts-empty", "len(self._rx_phases) == 0"),
+                      ("dilation-buffer-starts-empty-and-at-zero",
+                       "self._next_rx_dilate_seqnum == 0 and len(self._rx_dilate_seqnums) == 0")],
+             modifies=["_did_start_code", "_next_tx_phase", "_next_rx_phase", "_rx_phases", "_next_rx_dilate_seqnum",
+                       "_rx_dilate_seqnums", "_result"],
+             note="the application reorder buffer is a fresh object of its own (frame.no-aliasing): the contracts on W_received "
+                  "and on the Dilator's buffer each speak about their own dict, so sharing one dict would let a dilate-N record "
+                  "be delivered as application message N"),
     Contract("wormhole/_send.py:Send.queue", props=[PROP], params={"phase": "str", "plaintext": "bytes"},
              self_fields={"_queue": QS}, modifies=["_queue"],
              ensures=[("appended-at-the-end", "self._queue == old(self._queue) + [(phase, plaintext)]")]),
